@@ -155,6 +155,10 @@ void mfnd_on(vh::Case& c, const std::string& name) {
     for (auto& kv : M.cx) st.assign_filtration(st.find(stc::to_vh<ST>(kv.first)), (FV)kv.second);
   }
   c.log("[" + name + "] mfnd on " + vh::str(M.cx.size()) + " simplices monotone_input=" + vh::str(monotone_input));
+  // the filtration cache is warm (built on the final raw values) on a random half of the cases:
+  // make_filtration_non_decreasing / prune_above_filtration have to drop it themselves when they change something
+  bool warm = r.chance(1, 2);
+  if (warm) { st.clear_filtration(); (void)sequence(st); c.count("state.cache_warm_before_op"); }
   auto closure = M.monotone_closure();
   bool changed_expected = (closure != M.cx);
   std::string sig = std::string("opts=") + name + (changed_expected ? ",changes" : ",already_monotone");
@@ -199,6 +203,7 @@ void extended_on(vh::Case& c, const std::string& name) {
   ComplexModel M;
   int ntop = 1 + (int)r.below(4);
   for (int i = 0; i < ntop; ++i) M.insert_with_faces(stc::random_subset(r, uni, (int)uni.size()), 0.0);
+  if (r.chance(1, 6)) { ComplexModel V; for (long v : M.vertices()) V.cx[Simplex{v}] = 0; M = V; c.count("ext.zero_dimensional_complex"); }
   M = compress_labels(M);
   // vertex function with ties, sometimes constant
   bool constant = r.chance(1, 6);
@@ -212,6 +217,7 @@ void extended_on(vh::Case& c, const std::string& name) {
   double mn = 1e300, mx = -1e300; for (long v : verts) { mn = std::min(mn, vf[v]); mx = std::max(mx, vf[v]); }
   std::string sig = std::string("opts=") + name + (mn == mx ? ",constant_function" : "");
   c.log("[" + name + "] extend_filtration on " + vh::str(M.cx.size()) + " simplices, vertex function range [" + vh::str(mn) + "," + vh::str(mx) + "]");
+  if (r.chance(1, 2)) { st.clear_filtration(); (void)sequence(st); c.count("state.cache_warm_before_op"); sig += ",cache_warm"; }
   auto efd = st.extend_filtration();
   c.count(mn == mx ? "ext.constant" : "ext.nonconstant");
   if ((double)efd.minval != mn || (double)efd.maxval != mx) { c.violation("ext.minmax", sig, "efd=[" + vh::str(efd.minval) + "," + vh::str(efd.maxval) + "] expected [" + vh::str(mn) + "," + vh::str(mx) + "]"); return; }
@@ -261,8 +267,33 @@ void extended_on(vh::Case& c, const std::string& name) {
   if (mn != mx && M.cx.size() >= 5) { std::string h; for (auto& kv : expect) h += oracle::show(kv.first) + vh::str(kv.second.second); c.nontrivial(vh::hash_str(h + name)); }
 }
 
+// ------------------------------------------------------------ order validity along arbitrary operation histories
+// Cache protocol: operations that drop the filtration cache themselves (prune_above_*, clear) are followed directly by the
+// check; after any other modification the harness calls clear_filtration() or initialize_filtration(), as documented.
+template <class ST>
+void hist_on(vh::Case& c, const std::string& name, bool contiguous) {
+  stc::History h = stc::generate_history(c.rng, contiguous, 30, true, contiguous);
+  ST st; ComplexModel M;
+  c.log("[" + name + "] universe=" + vh::vstr(h.universe));
+  bool removal = false;
+  for (auto& op : h.ops) {
+    c.log(op.show());
+    if (!stc::apply_op(c, st, M, op, "hist.")) return;
+    std::string sig = std::string("opts=") + name + ",op=" + stc::op_name(op.kind) + "," + op.cls;
+    if (!stc::op_drops_filtration_cache(op.kind)) { if (c.rng.chance(1, 2)) st.clear_filtration(); else st.initialize_filtration(); }
+    else c.count("order.checked_without_explicit_reset");
+    if (!stc::check_filtration_range(c, st, M, sig, "hist.")) return;
+    if (op.kind == stc::REM || op.kind == stc::PRUNE_F || op.kind == stc::PRUNE_D) removal = true;
+    c.count("steps.hist_order");
+  }
+  if (removal && h.max_dim >= 2) { std::string hs; for (auto& op : h.ops) hs += op.show(); c.nontrivial(vh::hash_str(hs + name)); }
+}
+
 }  // namespace
 
+VH_CONFIG("hist_default", [](vh::Case& c) { hist_on<Gudhi::Simplex_tree<Gudhi::Simplex_tree_options_default>>(c, "default", false); });
+VH_CONFIG("hist_full", [](vh::Case& c) { hist_on<Gudhi::Simplex_tree<Gudhi::Simplex_tree_options_full_featured>>(c, "full", false); });
+VH_CONFIG("hist_fastp", [](vh::Case& c) { hist_on<Gudhi::Simplex_tree<Gudhi::Simplex_tree_options_fast_persistence>>(c, "fastp", true); });
 VH_CONFIG("order", case_order);
 VH_CONFIG("mfnd_default", [](vh::Case& c) { mfnd_on<Gudhi::Simplex_tree<Gudhi::Simplex_tree_options_default>>(c, "default"); });
 VH_CONFIG("mfnd_full", [](vh::Case& c) { mfnd_on<Gudhi::Simplex_tree<Gudhi::Simplex_tree_options_full_featured>>(c, "full"); });
